@@ -257,6 +257,10 @@ def run(ctx):
     # ------------------------------------------------------------------ R03.12 (generic, scoped to this property's anchors)
     sm.rule_named_plumbing(ctx, mir, "C03", "R03.12", floor=31)
 
+    # ------------------------------------------------------------------ R03.13 (= R04.14)
+    from .c04 import rule_hash_codes
+    rule_hash_codes(ctx, mir, idx, rid="R03.13")
+
     ctx.not_decided += ["tree-builder simulation beyond the tables (arbitrary mis-nesting in foreign content)", "hash collisions of LocalNameHash", "full token-boundary equivalence with the WHATWG tokenizer is rule R03.1 (product exploration), reported separately when present"]
     return ("Automaton-level dataflow of the text type over all %d states (every literal transition into a text state and every tag emission), "
             "complete decision tables of the tag predicates and of the ambiguity guard obtained by finite-domain abstract interpretation of the "
